@@ -20,14 +20,13 @@ Proof. exact grapheme_lemma. Qed.
 Print Assumptions grapheme_attrs_eq_spec.
 
 (* line break opportunities and mandatory breaks are exactly those of UAX #14 (LB1–LB31 with the LB25 tailoring of
-   Example 7), for every string over the library's classes that is free of the one documented deviation F3
-   (f3_free: no "(PR|PO) (OP|HY) (CM|ZWJ)+ NU"); `partial` names that exclusion, nothing else is missing *)
-Theorem line_attrs_eq_spec_partial : forall text,
-  forallb obs_wf_l text = true -> f3_free text = true ->
+   Example 7), for every string over the library's classes (since the repair of F3 no pattern is excluded) *)
+Theorem line_attrs_eq_spec : forall text,
+  forallb obs_wf_l text = true ->
   exists attrs, compute_attrs text = Ok attrs /\
                 map (fun a => (a_line a, a_mandatory a)) attrs = map flags_of (lb_spec text).
 Proof. exact line_lemma. Qed.
-Print Assumptions line_attrs_eq_spec_partial.
+Print Assumptions line_attrs_eq_spec.
 
 (* word boundaries are exactly those of UAX #29 (WB1–WB999 over the library's merged classes), for every string:
    the single left-to-right pass with its write-back (WB6, WB7b, WB12 amend the boundary before the previous
@@ -73,6 +72,6 @@ Example line_example :
   let cm := mkObs LB_CM true false false false false GB_Extend WB_ExtendFormat false false false false false in
   let lf := mkObs LB_LF false false false false false GB_LF WB_NewlineCRLF true false false false false in
   let t := [al; cm; sp; cm; al; lf; al] in
-  forallb obs_wf_l t = true /\ f3_free t = true
+  forallb obs_wf_l t = true
   /\ lb_spec t = [Prohibited; Prohibited; Prohibited; Allowed; Prohibited; Prohibited; Mandatory; Mandatory].
 Proof. repeat split; reflexivity. Qed.
